@@ -72,6 +72,27 @@ def clamp_range(facts, conv_path):
     return lo_all, hi_all, details
 
 
+def calc_value_path(facts):
+    """the private helper that computes the output level from the state: `Adsr::calc_value`, or, if it was renamed, the
+    only non-public `fn(&Adsr) -> f32` of the impl (role: tick stores its result in `value`)"""
+    p = ADSR + '::calc_value'
+    if p in facts.fns:
+        return p
+    c = []
+    for path, f in facts.fns.items():
+        if f.get('crate') != 'synth_utils' or f.get('pub') or f.get('kind') != 'assoc_fn' or f.get('arg_count') != 1:
+            continue
+        io = f.get('impl_of') or {}
+        if (io.get('self_ty') or {}).get('path') != facts.real('adt', ADSR) or 'trait' in io:
+            continue
+        loc = f.get('locals') or []
+        if len(loc) >= 2 and loc[0]['ty'].get('n') == 'f32' and loc[1]['ty'].get('k') == 'ref' and not loc[1]['ty'].get('mut'):
+            c.append(path)
+    if len(c) == 1:
+        return c[0]
+    raise InterpError('Adsr::calc_value (private helper computing the output level) not found and not identifiable by signature: candidates %s' % c)
+
+
 class Dds:
     def __init__(self, facts):
         self.facts = facts
@@ -347,7 +368,7 @@ def check_calc_value(res, facts, prop):
     F = fraction_term(dds, total, index)
     I = Poly.sym('self.pa.I')
     von, voff, s = Poly.sym('self.value_when_gate_on_received'), Poly.sym('self.value_when_gate_off_received'), Poly.sym('self.sustain_level.0')
-    where = where_of(facts, ADSR + '::calc_value')
+    where = where_of(facts, calc_value_path(facts))
     n = 0
     for state in STATES:
         for part, irange in (('I<=N-2', (0, n_tab - 2)), ('I=N-1', (n_tab - 1, n_tab - 1))):
@@ -356,7 +377,7 @@ def check_calc_value(res, facts, prop):
             a = dds.make_adsr(it, st, state, total, index)
             st.ctx.ranges[('sym', 'self.pa.I')] = (Fr(irange[0]), Fr(irange[1]))
             pre = copy.deepcopy(a)
-            outs, cell = run_method(it, st, ADSR + '::calc_value', a, [])
+            outs, cell = run_method(it, st, calc_value_path(facts), a, [])
             res.absorb(it)
             nxt = I + 1 if part == 'I<=N-2' else Poly.const(n_tab - 1)
             Ic = I if part == 'I<=N-2' else Poly.const(n_tab - 1)
@@ -409,7 +430,7 @@ def table_value_subst(p, tables):
 
 def blend_endpoints(res, facts, dds, total, index, n_tab):
     """start / end level of every timed phase: value at phase 0 and at the last phase position"""
-    where = where_of(facts, ADSR + '::calc_value')
+    where = where_of(facts, calc_value_path(facts))
     von, voff, s = Poly.sym('self.value_when_gate_on_received'), Poly.sym('self.value_when_gate_off_received'), Poly.sym('self.sustain_level.0')
     exp = {'Attack': (von, ONE), 'Decay': (ONE, s), 'Release': (voff, ZERO)}
     mask = (1 << total) - 1
@@ -418,7 +439,7 @@ def blend_endpoints(res, facts, dds, total, index, n_tab):
             it = dds.interp()
             st = State()
             a = dds.make_adsr(it, st, state, total, index, acc=Poly.const(acc))
-            outs, cell = run_method(it, st, ADSR + '::calc_value', a, [])
+            outs, cell = run_method(it, st, calc_value_path(facts), a, [])
             res.absorb(it)
             for o in sem_iter(outs):
                 got = table_value_subst(o.ret.term, facts.tables) if o.status == 'returned' and isinstance(o.ret, Num) else None
@@ -538,7 +559,7 @@ def check_tick(res, facts, prop):
                     it2 = dds.interp()
                     st2 = State()
                     st2.ctx = o.ctx.copy()
-                    outs2, c2 = run_method(it2, st2, ADSR + '::calc_value', copy.deepcopy(post), [])
+                    outs2, c2 = run_method(it2, st2, calc_value_path(facts), copy.deepcopy(post), [])
                 exp_vals = [x.ret.term for x in outs2 if x.status == 'returned' and isinstance(x.ret, Num)]
                 got = post.get('value')
                 # every feasible recomputation outcome must agree with the stored value (paths split on the same guards)
